@@ -1370,4 +1370,61 @@ theorem parseLoop_badkey (f : Nat) (indent : Str) (exp : Option Str) (pre : Str)
     | cons a b => rfl
   rw [hloc]
 
+theorem getLast?_append_ne (a b : Str) (h : b ≠ []) : (a ++ b).getLast? = b.getLast? := by
+  simp [List.getLast?_append]
+  cases hb : b.getLast? with
+  | none => simp [List.getLast?_eq_none_iff] at hb; exact absurd hb h
+  | some x => simp
+
+/-- a key text made of two words separated by white space is rejected -/
+theorem parseLoop_keyspace (f : Nat) (indent : Str) (exp : Option Str) (k1 ws k2 ws1 : Str) (sep : Sep) (X : Str)
+    (m : Map) (lk : Env)
+    (hi : nbAll indent = true) (he : expOk exp = true) (hk1 : validKey k1 = true)
+    (hws : nbAll ws = true) (hne : ws ≠ []) (hk2 : k2.all isKeyRune = true) (hne2 : k2 ≠ []) (h1 : nbAll ws1 = true) :
+    parseLoop (f + 1) (indent ++ (renderExp exp ++ (k1 ++ (ws ++ (k2 ++ (ws1 ++ sep.char :: X)))))) m lk =
+      .err .keySpace m := by
+  obtain ⟨w, ws', rfl⟩ : ∃ w ws', ws = w :: ws' := by
+    cases ws with
+    | nil => exact absurd rfl hne
+    | cons w ws' => exact ⟨w, ws', rfl⟩
+  have hw : isSpaceNB w = true := by
+    simp only [nbAll, List.all_cons, Bool.and_eq_true] at hws; exact hws.1
+  rw [parseLoop, stmtStart_eq _ _ (Nat.lt_succ_self _)]
+  simp only
+  rw [stmtL_line_start indent exp k1 _ hi hk1, line_start_ne exp k1 _ hk1]
+  simp only [Bool.false_eq_true, if_false]
+  have hloc : locateKey (renderExp exp ++ (k1 ++ (w :: ws' ++ (k2 ++ (ws1 ++ sep.char :: X))))) =
+      .ok (.ok (k1 ++ (w :: ws' ++ k2), X.dropWhile isSpaceNB, false)) := by
+    unfold locateKey
+    rw [dropExport_render exp k1 _ he hk1 (by
+      intro c hc
+      simp at hc; subst hc
+      exact isSpaceU_not_key (isSpaceNB_isSpaceU hw))]
+    simp only
+    rw [scanKey_key _ _ _ (validKey_all hk1), scanKey_ws _ _ _ hws, scanKey_key _ _ _ hk2, scanKey_ws _ _ _ h1, scanKey_sep]
+    simp only [Nat.zero_add]
+    have hre : k1 ++ (w :: ws' ++ (k2 ++ (ws1 ++ sep.char :: X))) = (k1 ++ (w :: ws' ++ k2)) ++ (ws1 ++ sep.char :: X) := by
+      simp
+    have hlen : k1.length + (w :: ws').length + k2.length = (k1 ++ (w :: ws' ++ k2)).length := by
+      simp; omega
+    rw [hre, hlen]
+    have hle : (k1 ++ (w :: ws' ++ k2)).length + ws1.length + 1 ≤ ((k1 ++ (w :: ws' ++ k2)) ++ (ws1 ++ sep.char :: X)).length := by
+      simp; omega
+    rw [sliceTo_le (by omega), sliceFrom_le hle, take_two, drop_two]
+    obtain ⟨c, r, rfl, _⟩ := validKey_ne hk1
+    simp only [List.cons_append, List.isEmpty_cons, Bool.false_eq_true, if_false]
+    have hlast : lastNotSpace (c :: (r ++ (w :: (ws' ++ k2)))) = true := by
+      have e : c :: (r ++ (w :: (ws' ++ k2))) = (c :: r ++ w :: ws') ++ k2 := by simp
+      rw [e]
+      unfold lastNotSpace
+      rw [getLast?_append_ne _ _ hne2]
+      exact key_lastNotSpace hk2
+    rw [← List.cons_append, ← List.cons_append, trimRightU_append_ws _ _ (nbAll_spaceU h1)]
+    simp only [List.cons_append]
+    rw [trimRightU_id _ hlast]
+  rw [hloc]
+  have hany : (k1 ++ (w :: ws' ++ k2)).any isSpaceU = true := by
+    simp [List.any_append, isSpaceNB_isSpaceU hw]
+  simp only [hany, if_true]
+
 end CV.Dotenv
